@@ -225,6 +225,23 @@ macro_rules! acc_type {
                         }
                         let mut a = [S::default(); N];
                         a.copy_from_slice(&buf[..N]);
+                        // the same read into the head of a longer destination: the first N elements, the rest untouched
+                        let mut long = [sentinel; N + 3];
+                        let r = vcore::catch(move || {
+                            v.write_to_slice(&mut long);
+                            long
+                        });
+                        match r {
+                            Err(m) => return Err(format!("write_to_slice into a slice of {} elements panicked: {m}", N + 3)),
+                            Ok(long) => {
+                                for i in 0..N + 3 {
+                                    let want = if i < N { a[i].tb() } else { sentinel.tb() };
+                                    if long[i].tb() != want {
+                                        return Err(format!("write_to_slice into a longer slice: element {i} holds 0x{:x}, expected 0x{:x}", long[i].tb(), want));
+                                    }
+                                }
+                            }
+                        }
                         return Ok(a);
                     }
                     "Into<array>" => {
